@@ -53,7 +53,9 @@ Upd(f, k, v) == IF k \in DOMAIN f THEN [f EXCEPT ![k] = v] ELSE f @@ (k :> v)
 
 NamesOf(h) == {h[i][1] : i \in DOMAIN h}
 OnlyNames(h, ns) == SelectSeq(h, LAMBDA p : p[1] \in ns)
-Contains(seen, given) == OnlyNames(seen, NamesOf(given)) = given      \* same fields, same values, same relative order
+\* every given field is there with the same values; the order of field lines matters only among lines of one name
+\* (RFC 9110 5.3)
+Contains(seen, given) == \A n \in NamesOf(given) : OnlyNames(seen, {n}) = OnlyNames(given, {n})
 
 \* RFC 9110 5.3: the mapping view (request.headers / response.headers) combines the field lines of one
 \* name, in order, into one comma-separated value
@@ -134,7 +136,7 @@ HandlerClause(e) ==
         o == Rfc9112ReqBodyLength(Fields(w))
         wb == WireBody(o, w)
     IN  IF e.entered = 0 /\ ~e.rejected          \* rejected: the route's expect handler answered instead of the handler
-            THEN (IF i.method = "HEAD" /\ w.after > 0 THEN "HeadRequestBodyDropped" ELSE "RequestNotDelivered")
+            THEN (IF i.method = "HEAD" /\ w.after > 0 /\ ~HeadReqBodyFramed THEN "HeadRequestBodyDropped" ELSE "RequestNotDelivered")
         ELSE IF e.entered > 1 THEN "RequestDeliveredTwice"
         ELSE IF e.method # i.method THEN "MethodSame"
         ELSE IF e.ver # i.ver THEN "VersionSame"
@@ -166,12 +168,13 @@ RespWireClause(e) ==
         ELSE IF fr # "" THEN fr
         ELSE IF o.k = "Error" THEN "FramingTruthful"
         ELSE IF o.k = "Empty" /\ e.after # 0
-            THEN (IF r.refused # "" THEN (IF e.chunkOk THEN "ErrorPageThroughChunkingWriter" ELSE "ErrorPageThroughStaleWriter")
+            THEN (IF r.refused = "PrepareHookFailed" THEN "ErrorPageAfterFailedPrepare"
+                  ELSE IF r.refused # "" THEN "ErrorPageThroughStaleWriter"
                   ELSE IF e.ce # "" THEN "CompressedBytesAfterEmptyHead"
                   ELSE IF i.method = "HEAD" THEN "BodySentForHead" ELSE "FramingTruthful")
         ELSE IF o.k = "Length" /\ e.after # o.n
-            THEN (IF r.refused # "" THEN (IF e.chunkOk /\ e.dataLen = o.n THEN "ErrorPageThroughChunkingWriter"
-                                         ELSE "ErrorPageThroughStaleWriter")
+            THEN (IF r.refused = "PrepareHookFailed" THEN "ErrorPageAfterFailedPrepare"
+                  ELSE IF r.refused # "" THEN "ErrorPageThroughStaleWriter"
                   ELSE "FramingTruthful")
         ELSE IF o.k = "Chunked" /\ ~ChunkedWellFormed(e) THEN "FramingTruthful"
         ELSE IF r.bodyKnown /\ o.k \in {"Length", "Chunked"}
@@ -277,7 +280,7 @@ ReqDrift(e) ==
          ELSE IF ModelClShape(d.cl, Sz0) # ClShape(e.cl, IF d.ce THEN "x" ELSE "", n) THEN "req:cl"
          ELSE IF d.ce # (e.ce # "") THEN "req:ce"
          ELSE IF d.expect # e.expect THEN "req:expect"
-         ELSE IF e.after > 0 /\ d.wChunked # e.chunkOk THEN "req:writer-mode"
+         ELSE IF e.after > 0 /\ d.wChunked # (e.chunkOk \/ e.chunkShort) THEN "req:writer-mode"
          ELSE ""
 
 RespDrift(e) ==
